@@ -1,9 +1,13 @@
 package main
 
 import (
+	"bufio"
 	"context"
+	"encoding/binary"
 	"fmt"
 	"net"
+	"os"
+	"path/filepath"
 	"strings"
 	"syscall"
 	"time"
@@ -506,5 +510,109 @@ func c03Special(r *Run, listeners []*hostListener) {
 			r.Violation("c03-dial", "the gateway connected to an address that the policy does not allow for this request, or to another address than the requested one",
 				fmt.Sprintf("%s\nconnections seen at the hosts: %d (A %s: %d), expected %d\ntrace: %s\n", fl.name, total, a.addr, ir.accepted[a.addr], fl.want, implModelCanon(ir, true)))
 		}
+	}
+	c03Binary(r)
+}
+
+// c03Binary: the policy as main() wires it. The real executable with token authentication and each
+// host-selection mode; a token minted for host A (same signing key, access token the fake IdP honours);
+// over a websocket tunnel CHANNEL_CREATE for A must connect to A, CHANNEL_CREATE for another host B must be
+// refused with access-denied and no connection — in every mode: the token's host binds whatever the mode allows.
+func c03Binary(r *Run) {
+	if _, err := os.Stat(gwBinaryPath()); err != nil {
+		r.Note("gateway binary unavailable: the wiring of the host policy in main() was not exercised")
+		return
+	}
+	r.TierRan("binary")
+	idp := setupSecurity()
+	idp.setToken("at-valid", "ok:alice")
+	dir := filepath.Join(verifRoot, "work", fmt.Sprintf("c03-%d", os.Getpid()))
+	os.MkdirAll(dir, 0o755)
+	defer os.RemoveAll(dir)
+	a, b := newHostListener(), newHostListener()
+	defer a.close()
+	defer b.close()
+	for _, mode := range []string{"any", "roundrobin", "unsigned", "signed"} {
+		port := freePort()
+		ta := true
+		y := &gwYaml{port: port, auth: []string{"openid"}, hosts: []string{a.addr, b.addr}, hostSelection: mode, idpURL: idp.srv.URL, tokenAuth: &ta,
+			keys: map[string]string{"security.paatokensigningkey": keySign, "security.paatokenencryptionkey": keyEnc, "security.querytokensigningkey": keyQuery}}
+		p := startBinary(dir, y.render(), nil, port, false)
+		if !p.running() {
+			r.Note("binary did not start with hostselection " + mode + ": " + tail(p.stderr.String(), 300))
+			p.stop()
+			continue
+		}
+		id := identity.NewUser()
+		id.SetAttribute(identity.AttrClientIp, "127.0.0.1")
+		id.SetAttribute(identity.AttrAccessToken, "at-valid")
+		tok, err := security.GeneratePAAToken(ctxWithIdentity(id), "alice", a.addr)
+		if err != nil {
+			p.stop()
+			r.Inconclusive()
+			continue
+		}
+		for _, target := range []*hostListener{b, a} {
+			a.poll()
+			b.poll()
+			a.reset()
+			b.reset()
+			conn, err := p.dial()
+			if err != nil {
+				r.Inconclusive()
+				continue
+			}
+			br := bufio.NewReader(conn)
+			resp := rawRequest(conn, br, "RDG_OUT_DATA", fmt.Sprintf("localhost:%d", port), nil, true)
+			status := "no-upgrade"
+			if resp.upgraded {
+				w := &wsClient{c: conn, br: br}
+				h, pt := splitHostPort(target.addr)
+				for _, pk := range [][]byte{mkPacket(tHandshake, bodyHandshake(1, 0, 0, 2)), mkPacket(tTunnel, bodyTunnelCreate(0, 1, append(utf16le(tok), 0, 0))),
+					mkPacket(tAuth, bodyTunnelAuth(append(utf16le("PC"), 0, 0))), mkPacket(tChannel, bodyChannel(pt, append(utf16le(h), 0, 0)))} {
+					w.send(pk)
+				}
+				status = "no-channel-response"
+				for k := 0; k < 4; k++ {
+					m, err := w.recv(3 * time.Second)
+					if err != nil {
+						break
+					}
+					if len(m) >= 12 && m[0] == 9 {
+						status = fmt.Sprintf("0x%08x", binary.LittleEndian.Uint32(m[8:12]))
+					}
+				}
+			}
+			time.Sleep(50 * time.Millisecond)
+			a.poll()
+			b.poll()
+			na, nb := len(a.conns), len(b.conns)
+			conn.Close()
+			r.Count("binary:" + mode + ":" + map[bool]string{true: "own", false: "other"}[target == a])
+			r.Dist("binary:" + mode)
+			rep := fmt.Sprintf("real binary: authentication openid, tokenauth, hostselection %s, hosts [A %s, B %s]; token minted for A and alice at 127.0.0.1\nCHANNEL_CREATE for %s: channel response %s; connections accepted at A: %d, at B: %d\n", mode, a.addr, b.addr, target.addr, status, na, nb)
+			if status == "no-upgrade" || status == "no-channel-response" {
+				if target == a {
+					r.Violation("c03-binary-own-host", "a token's own host, allowed by the configured policy, cannot be reached through the real binary", rep)
+				} else {
+					r.Inconclusive()
+				}
+				continue
+			}
+			if mode == "signed" {
+				// security.CheckHost refuses every host in this mode (the model's Policy.checkHost says the same)
+				if status == "0x00000000" || na+nb > 0 {
+					r.Violation("c03-dial", "the gateway connected to an address that the policy does not allow for this request, or to another address than the requested one", rep)
+				}
+				continue
+			}
+			if target == b && (status == "0x00000000" || nb > 0) {
+				r.Violation("c03-dial", "the gateway connected to an address that the policy does not allow for this request, or to another address than the requested one", rep)
+			}
+			if target == a && (status != "0x00000000" || na != 1 || nb != 0) {
+				r.Violation("c03-binary-own-host", "a token's own host, allowed by the configured policy, cannot be reached through the real binary", rep)
+			}
+		}
+		p.stop()
 	}
 }
